@@ -97,7 +97,7 @@ def grid(rng, lo, hi, nd=3):
     return rng.randint(int(round(lo * q)), int(round(hi * q))) / q
 
 
-def make_snapshots(rng, ndim, n, nframes, centred, ntypes, L):
+def make_snapshots(rng, ndim, n, nframes, centred, ntypes, L, steps=None):
     SingleSnapshot, Snapshots = _imp()
     lo = -L / 2 if centred else 0.0
     base = np.array([[grid(rng, lo + 0.05, lo + L - 0.05) for _ in range(ndim)] for _ in range(n)])
@@ -107,7 +107,7 @@ def make_snapshots(rng, ndim, n, nframes, centred, ntypes, L):
         pos = base + np.array([[grid(rng, -0.08, 0.08) for _ in range(ndim)] for _ in range(n)]) * f
         pos = lo + np.mod(pos - lo, L)
         bounds = np.array([[lo, lo + L]] * ndim)
-        snaps.append(SingleSnapshot(timestep=10 * f, nparticle=n, particle_type=types.copy(), positions=pos,
+        snaps.append(SingleSnapshot(timestep=(steps[f] if steps else 10 * f), nparticle=n, particle_type=types.copy(), positions=pos,
                                     boxlength=np.array([L] * ndim), boxbounds=bounds, realbounds=bounds.copy(),
                                     hmatrix=np.diag([L] * ndim).astype(float)))
     return Snapshots(nsnapshots=nframes, snapshots=snaps)
@@ -146,8 +146,11 @@ class World:
         n2, n3, nf = spec.get("n2", 10), spec.get("n3", 9), spec.get("nframes", 3)
         c3 = spec.get("centred3", True)
         c2 = spec.get("centred2", False)
-        self.s2 = make_snapshots(rng, 2, n2, nf, c2, 2, 4.0)
-        self.s3 = make_snapshots(rng, 3, n3, nf, c3, 2, 3.0)
+        # "tperm": frames that are NOT in increasing timestep order (two runs concatenated): a routine that sorts the caller's frame list
+        # in place changes which frame every other routine sees at index k
+        steps = ([0, 20, 10] + [10 * f for f in range(3, nf)]) if spec.get("tperm") and nf >= 3 else None
+        self.s2 = make_snapshots(rng, 2, n2, nf, c2, 2, 4.0, steps)
+        self.s3 = make_snapshots(rng, 3, n3, nf, c3, 2, 3.0, steps)
         self.sk = {k: make_snapshots(rng, 3, 10, 2, False, k, 3.0) for k in (1, 2, 3, 4, 5)}
         self.sk2 = {k: make_snapshots(rng, 2, 10, 2, False, k, 4.0) for k in (1, 2)}
         self.orient = make_snapshots(rng, 2, n2, nf, False, 1, 4.0)     # "positions" hold unit orientation vectors
